@@ -6,7 +6,8 @@ package logic
 //
 // What is enumerated (every tuple of the stated finite domains, nothing sampled):
 //   - uint ops (+ - * / % < > <= >= == != && || | & ^ addw mulw): ALL pairs of
-//     B64 = {0,1,2,3, 2^k-1, 2^k, 2^k+1 (k in 8,16,31,32,33,63), 2^64-2, 2^64-1};
+//     B64 = {0,1,2,3, 2^k-1, 2^k, 2^k+1 (k in 8,16,31,32,33,63), 2^64-2, 2^64-1} (24 values; the
+//     thorough tier adds k in 4,24,48,62 and six mixed patterns: 42 values);
 //     shl shr exp expw: B64 x (B64 u {0..130});  ! ~ sqrt bitlen itob: an extended unary set
 //     (B64, perfect squares +-1, 2^k +-1 for every k); divw: B64^3; divmodw: B64^4.
 //   - byte-math (b+ b- b* b/ b% b< b> b<= b>= b== b!= and == != on bytes): all pairs of ~35 big-endian
@@ -20,7 +21,9 @@ package logic
 //     substring3/extract3/extract_uint16/32/64/replace2/replace3/concat/bzero over boundary grids
 //     including 2^64-1 (uint64 wrap of B+C) and 4095/4096/4097-byte lengths.
 //   - every case is run in signature mode in the newest AVM version AND in the oldest version
-//     that has the opcode (pushes via intcblock/bytecblock there when pushint is missing).
+//     that has the opcode (pushes via intcblock/bytecblock there when pushint is missing);
+//     every case whose operand A is a byte array (and every 1/2-operand case) is run a second
+//     time with `dup` after pushing A: the copy below the operands must be unchanged.
 //
 // How a case is executed: a real bytecode program `<version> push SENTINEL; push A; push B..; OP`
 // is evaluated by EvalSignatureFull under the vFuture consensus parameters; the final stack
@@ -47,15 +50,18 @@ package logic
 //   4. opDivModw remainder words swapped
 //   5. nonzero(): `return b[i:]` -> `return b`                  (b< / b== ignore leading zeros only sometimes)
 //   6. opBtoi `len(ibytes) > 8` -> `> 9`
-//   7. opSetBit byte-array bit order (mask 0x80 >> -> 0x01 <<)
+//   7. opSetBit: `slices.Clone(target.Bytes)` -> `target.Bytes` (in-place write seen through a dup: needs dup+setbit)
 
 import (
 	"bytes"
 	"encoding/binary"
 	"encoding/hex"
+	"encoding/json"
 	"fmt"
 	"math"
 	"math/big"
+	"strconv"
+	"strings"
 	"sync"
 	"sync/atomic"
 	"testing"
@@ -181,6 +187,12 @@ func c32B64() []uint64 {
 		g = append(g, (uint64(1)<<k)-1, uint64(1)<<k, (uint64(1)<<k)+1)
 	}
 	g = append(g, math.MaxUint64-1, math.MaxUint64)
+	if ve.Thorough() { // thorough tier: 42 values
+		for _, k := range []uint{4, 24, 48, 62} {
+			g = append(g, (uint64(1)<<k)-1, uint64(1)<<k, (uint64(1)<<k)+1)
+		}
+		g = append(g, 10, 1_000_000_000, 1_000_000_000_000_000_000, 0xffffffff00000000, 0x5555555555555555, 0xaaaaaaaaaaaaaaaa)
+	}
 	return c32dedupU(g)
 }
 
@@ -858,6 +870,7 @@ type c32case struct {
 	Args    []string `json:"args"`
 	Imm     []int    `json:"imm,omitempty"`
 	DupA    bool     `json:"dup_a,omitempty"` // operand A is dup'ed below the operands (aliasing probe)
+	Raw     []string `json:"raw_args"`        // machine readable operands: "u:<decimal>" or "b:<hex>"
 	Program string   `json:"program_hex,omitempty"`
 }
 
@@ -896,6 +909,13 @@ func c32check(c *c32rep, op *c32op, version uint64, args []c32v, imm []byte, dup
 	prog, oppc := c32program(version, args, op.code, imm, dupFirst)
 	mk := func() c32case {
 		cs := c32case{Op: op.name, Version: version, Args: c32strs(args), DupA: dupFirst}
+		for _, a := range args {
+			if a.isB {
+				cs.Raw = append(cs.Raw, "b:"+hex.EncodeToString(a.b))
+			} else {
+				cs.Raw = append(cs.Raw, fmt.Sprintf("u:%d", a.u))
+			}
+		}
 		for _, b := range imm {
 			cs.Imm = append(cs.Imm, int(b))
 		}
@@ -1016,6 +1036,39 @@ func TestVerif_C32(t *testing.T) {
 	r.Assume("evaluation under config.Consensus[vFuture] in signature mode; pushes via pushint/pushbytes (v3+) or intcblock/bytecblock (v1, v2)")
 
 	ops := c32ops()
+	if raw := r.ReplayRequest(); raw != nil { // bin/vcheck C32 --replay <file>
+		var cs c32case
+		if err := json.Unmarshal(raw, &cs); err != nil {
+			t.Fatalf("bad replay file: %v", err)
+		}
+		var args []c32v
+		for _, a := range cs.Raw {
+			if strings.HasPrefix(a, "b:") {
+				b, _ := hex.DecodeString(a[2:])
+				args = append(args, c32b(b))
+			} else {
+				u, _ := strconv.ParseUint(strings.TrimPrefix(a, "u:"), 10, 64)
+				args = append(args, c32u(u))
+			}
+		}
+		var imm []byte
+		for _, x := range cs.Imm {
+			imm = append(imm, byte(x))
+		}
+		for oi := range ops {
+			if ops[oi].name == cs.Op {
+				kind := c32check(c, &ops[oi], cs.Version, args, imm, cs.DupA)
+				fmt.Printf("REPLAY C32 %s v%d args=%v imm=%v -> %s\n", cs.Op, cs.Version, cs.Args, cs.Imm, kind)
+				r.Eval()
+				r.Class("replay/" + kind)
+			}
+		}
+		r.Class("replay")
+		if r.Finish(ve.Coverage{Rule: "replay of one recorded case", Exhaustive: false}) > 0 {
+			t.Fatalf("violation reproduced")
+		}
+		return
+	}
 	var perOp = map[string]int64{}
 	var total int64
 	for oi := range ops {
